@@ -122,6 +122,13 @@ def _shard_entry(a):
         mod.run(ctx)
     except Inconclusive as e:
         r = ctx.result(); r["inconclusive"] = str(e); return r
+    except ShimCrash as e:
+        # a workload that talks to the shim directly (Shim.raw) and does not expect the library to die: the death is the observation
+        fr = _frames(e.report)
+        toks = [t for t in (e.cmd or "?").split(" ") if t and not t.startswith("@")]
+        ctx.fail("%s:%s:%s:%s" % (prop, toks[0] if toks else "?", e.kind, "/".join(fr[:3]) if fr else "noframes"),
+                 "shim died (%s), shard stopped early\n%s" % (e.kind, e.report[-6000:]), cmds=e.history, config=configs[0] if configs else "san")
+        return ctx.result()
     except Exception:
         r = ctx.result(); r["harness_error"] = traceback.format_exc(); return r
     return ctx.result()
